@@ -295,8 +295,10 @@ func (s *Sched) waitLogFor(d time.Duration, pred func(mem.Ev) bool) bool {
 func PlaySched(beh M) ([]M, error) {
 	cfgS := Sub(beh, "cfg")
 	cfg := M{"auth": "none", "tls": "nil", "params": M{}, "version": "", "mw": []any{}, "term": "none", "limit": 8192}
-	if I(beh, "_i")%5 == 3 {
-		cfg["ctx"] = "dead" // sessions whose context has ended are served, and accounted for, like any other
+	if I(beh, "_i")%5 == 3 && I(beh, "_i")%4 != 2 {
+		// sessions whose context has ended are served, and accounted for, like any other (not together with the
+		// statement that is held inside a row: with an ended context no row is encoded)
+		cfg["ctx"] = "dead"
 	}
 	x, err := NewExec(cfg)
 	if err != nil {
